@@ -123,14 +123,14 @@ COMPILE_BAD = '"/x" {\n  pull { path "/pull/x" }\n}\n'   # pull route without an
 def confine_cases():
     cases = []
     for cfgk in ("set", "empty", "padded"):
-        for pk in ("absent", "empty", "same", "padded", "foreign", "foreign_new", "nonstring", "casefold", "suffix", "prefixdir"):
+        for pk in ("absent", "empty", "same", "padded", "foreign", "foreign_new", "nonstring", "casefold", "suffix", "prefixdir", "dotdot_symlink"):
             for content, ck in ((VALID2, "valid"), (PARSE_BAD, "parse_bad"), (COMPILE_BAD, "compile_bad")):
                 for mode in ("write_only", "preview_only"):
                     cases.append({"tool": "config_apply", "cfg_kind": cfgk, "path_kind": pk, "content": content,
                                   "mode": mode, "principal": "ops", "_ck": ck})
     for tool in ("management_endpoint_upsert", "management_endpoint_delete"):
         for cfgk in ("set", "empty"):
-            for pk in ("absent", "same", "foreign", "foreign_new", "casefold", "suffix"):
+            for pk in ("absent", "same", "foreign", "foreign_new", "casefold", "suffix", "dotdot_symlink"):
                 extra = {"application": "app1", "endpoint_name": "ep1", "reason": "verif"}
                 if tool.endswith("upsert"):
                     extra["route"] = "/hooks"
@@ -506,7 +506,7 @@ def main(ctx, replay):
             problems.append("config file no longer parses+compiles after the call")
         cfgs = {"set": "CFG", "empty": "", "padded": "  CFG  "}[c["cfg_kind"]]
         arg = {"absent": None, "empty": "", "same": "CFG", "padded": " CFG\t", "foreign": "FOREIGN", "foreign_new": "FOREIGN_NEW",
-               "casefold": "cfg", "suffix": "CFG.bak", "prefixdir": "DIRx/CFG"}.get(c["path_kind"], "NONSTRING")
+               "casefold": "cfg", "suffix": "CFG.bak", "prefixdir": "DIRx/CFG", "dotdot_symlink": "DIR/current/../CFG"}.get(c["path_kind"], "NONSTRING")
         resolved = None if arg == "NONSTRING" else py_resolve(cfgs, arg)
         if c["tool"] == "config_apply":
             if resolved is None:
